@@ -21,7 +21,7 @@ RULE = (
     "documented layout (1e-9). (2) solve_and_simulate(params, initial_states, seed) must return the same frame as "
     "simulate(params, vf_arr_list=solve(params), initial_states, seed) (index/columns identical, discrete exact, "
     "floats 1e-12; a differing choice is accepted only if the oracle of C02 finds both tolerance-optimal). "
-    "Non-trivial: an on-grid row in a period >=1, in a model with T>=2; distinct by case digest."
+    "One fixed case has 2**20+1500 grid states per period (the generated ones stay below ~2e4). Non-trivial: an on-grid row in a period >=1, in a model with T>=2; distinct by case digest."
 )
 ASSUMPTIONS = [
     "float64, CPU",
@@ -48,6 +48,29 @@ def cases(draw):
 
 def strategy(tier):
     return cases()
+
+
+def fixed_cases(tier):
+    """One LARGE state space (more than 2**20 grid states per period): the generated models stay
+    below ~2e4 states, so anything that depends on the size of the value arrays needs this case."""
+    from ..ir import Spec
+
+    n = 2**20 + 1500
+    spec = Spec(
+        n_periods=2,
+        states={"w_x": ("lin", 1.0, 50.0, n)},
+        choices={"d_w": ("disc", 2), "c_x": ("lin", 0.5, 2.0, 3)},
+        functions={
+            "utility": {"args": ["c_x", "d_w", "w_x"], "body": "xp.log(c_x) - 0.3 * d_w + 0.1 * xp.sqrt(w_x)"},
+            "next_w_x": {"args": ["w_x", "c_x", "d_w"], "body": "1.01 * w_x - c_x + 1.5 * d_w"},
+            "budget_constraint": {"args": ["w_x", "c_x"], "body": "c_x <= w_x", "margin": "w_x - c_x"},
+        },
+        consts={},
+        params={"beta": 0.93, "utility": {}, "next_w_x": {}, "budget_constraint": {}},
+    )
+    agents = [{"combo": 0, "disc": [0, 0, 0, 0], "node": [k, 0, 0], "mode": ["on"] * 3, "frac": [1, 1, 1]}
+              for k in (0, 3, 7, 11)]
+    return [{"spec": spec.to_json(), "agents": agents, "seed": 5}]
 
 
 def check(case):
